@@ -184,4 +184,27 @@ PROPERTIES = {
                        "radicand, cosine/bhattacharyya sign up to 1 ulp) are checked on the real functions only.",
         "trusted": ["see C06", "axiom table fixed in /verif/specs/metrics.py"],
     },
+    "C12": {
+        "functions": ["opfython.subgraphs.knn.KNNSubgraph.create_arcs", "opfython.subgraphs.knn.KNNSubgraph.calculate_pdf",
+                      "opfython.subgraphs.knn.KNNSubgraph.eliminate_maxima_height",
+                      "opfython.core.subgraph.Subgraph.destroy_arcs"],
+        "lemmas": [],
+        "files": ["opfython/subgraphs/knn.py", "opfython/core/subgraph.py", "opfython/core/node.py",
+                  "opfython/utils/constants.py"],
+        "bounded": "bounded.knn",
+        "level": "proof",
+        "trusted": COMMON_TRUST[:3] + [
+            "arc weights are reads of the uninterpreted DFN / PRE (finite, non-negative; no symmetry assumed)",
+            "float64 arrays that only hold sample indices (neighbours_idx, adjacency entries) are modelled as integer arrays "
+            "(exact below 2^53); int() of such an entry is the identity",
+            "exp is uninterpreted with the external contract exp(u) > 0 and exp(u) <= 1 for u <= 0; the sum over the k "
+            "neighbours is the ghost function PSUM defined by primitive recursion (a conservative extension assumed at "
+            "entry, exported to callers with a fresh symbol per call); + * / on reals are mathematical (rounding outside)",
+            "create_arcs is specified for fresh arcs (empty neighbour lists) as the statement says; its density bound is "
+            "max(bound before the call, largest neighbour distance) with the 1e-5 fallback - the accumulation across calls "
+            "(note N1 in DESIGN) is visible in the contract",
+            "calculate_pdf requires a positive density bound (what create_arcs leaves); UnsupervisedOPF._best_minimum_cut "
+            "overrides the bound with max_distances[k-1], which is 0 on heavily duplicated data (note N3 in DESIGN)",
+        ],
+    },
 }
